@@ -277,8 +277,15 @@ class _SimReadFile:
         self.pos = 0
         self.fail_after = fail_after  # None, or number of bytes after which reads raise EIO
         self.closed = False
+        self.mid_hook = None  # (after_bytes, callable): a foreign writer acts once this reader has consumed that many bytes
 
     def _check(self):
+        h = self.mid_hook
+        if h is not None and self.pos >= h[0]:
+            # the reader keeps seeing the content it opened (the writer replaced the file, as htpasswd(1) and editors do)
+            self.mid_hook = None
+            self.fs._fired("write_during_read")
+            h[1]()
         if self.fail_after is not None and self.pos >= self.fail_after:
             self.fs._fired("read_error")
             raise OSError(_errno.EIO, "Input/output error", self.path)
@@ -445,8 +452,13 @@ class SimFS:
                 self.armed = None
                 fail_after = arm["after"] % (len(self.files[path]) + 1)
             if "b" not in mode:
-                return _SimTextReadFile(self, path, self.files[path], fail_after, k.get("encoding"))
-            return _SimReadFile(self, path, self.files[path], fail_after)
+                fh = _SimTextReadFile(self, path, self.files[path], fail_after, k.get("encoding"))
+            else:
+                fh = _SimReadFile(self, path, self.files[path], fail_after)
+            if arm and arm["kind"] == "write_during_read":
+                self.armed = None
+                fh.mid_hook = (arm["after"] % (len(self.files[path]) + 1), arm["action"])
+            return fh
         if mode.startswith("w"):
             fail_after = None
             err = _errno.EIO
